@@ -42,6 +42,8 @@ impl XSequence {
     pub fn len(&self) -> (r: Option<usize>) ensures r == self.slen() { unimplemented!() }
 }
 
+// @@INCLUDE stdx@@
+
 // @@EXTRACTED@@
 
 } // verus!
